@@ -1,6 +1,7 @@
 package main
 
 import (
+	"sync"
 	"runtime/debug"
 	"crypto/md5"
 	"fmt"
@@ -184,6 +185,15 @@ func (r *fsRunner) exec(line string) string {
 			return "iternext err " + errShort(err)
 		}
 		return "iternext " + interp.Hex(k) + " " + interp.Hex(v)
+	case "backup":
+		// the backup directory's segment bytes go to the side channel compared across file systems
+		bdir := r.dir + "_bk_" + f[1]
+		if err := r.db.Backup(bdir); err != nil {
+			r.fsizes = append(r.fsizes, "backup error: "+errShort(err))
+			return "backup err " + errShort(err)
+		}
+		r.fsizes = append(r.fsizes, "backup segments: "+r.segBytesOf(bdir))
+		return "backup ok"
 	case "compact":
 		cr, err := r.db.Compact()
 		if err != nil {
@@ -216,8 +226,10 @@ func (r *fsRunner) exec(line string) string {
 }
 
 // segBytes: name:length:sha256 of every segment file, sorted.
-func (r *fsRunner) segBytes() string {
-	sub := fs.Sub(r.fsys, r.dir)
+func (r *fsRunner) segBytes() string { return r.segBytesOf(r.dir) }
+
+func (r *fsRunner) segBytesOf(dir string) string {
+	sub := fs.Sub(r.fsys, dir)
 	entries, err := sub.ReadDir(".")
 	if err != nil {
 		return "ERR " + err.Error()
@@ -248,7 +260,7 @@ func (r *fsRunner) segBytes() string {
 
 var l1cmds = map[string]bool{"params": true, "open": true, "put": true, "del": true, "get": true, "getappend": true,
 	"has": true, "count": true, "items": true, "sync": true, "compact": true, "close": true, "setlock": true, "appendraw": true, "segbytes": true,
-	"iternew": true, "iternext": true}
+	"iternew": true, "iternext": true, "backup": true}
 
 // genC17: programs (writes, deletes, compaction, restart, simulated unclean shutdown with a torn
 // tail) generated against the harness file system and the model, then replayed on Mem, OS, OSMMap.
@@ -291,6 +303,10 @@ func genC17(r *rng, tier string, res *Result) {
 				g.c.tag("scan_across_compaction")
 			}
 			g.checkAll()
+			if i%4 == 2 && s == 0 {
+				g.do("backup w", "backup ok")
+				g.c.tag("backup_on_every_file_system")
+			}
 			g.close()
 			g.do("segbytes")
 			if g.r.chance(60) {
@@ -440,4 +456,60 @@ func genC17(r *rng, tier string, res *Result) {
 		}
 	}
 	res.Tags["big_value_runs"] = len(sums)
+	// the same READ-ONLY concurrent program on every file system: File.Slice is documented to be safe
+	// for concurrent use, and readers run under a shared lock: 8 goroutines Get / Has every key of a
+	// 512-key database; every result must be the stored value on every file system
+	for _, fsc := range []struct {
+		name string
+		fsys fs.FileSystem
+		root string
+	}{
+		{"mem", fs.Mem, fmt.Sprintf("c17conc-%d", res.Seed)},
+		{"os", fs.OS, filepath.Join(tmp, "conc-os")},
+		{"osmmap", fs.OSMMap, filepath.Join(tmp, "conc-mm")},
+	} {
+		db, err := pogreb.Open(fsc.root, &pogreb.Options{FileSystem: fsc.fsys})
+		if err != nil {
+			continue
+		}
+		const nk = 512
+		kk := func(i int) []byte { return []byte(fmt.Sprintf("ck-%04d", i)) }
+		vv := func(i int) []byte { return []byte(fmt.Sprintf("cv-%04d-%s", i, strings.Repeat("y", i%40))) }
+		for i := 0; i < nk; i++ {
+			_ = db.Put(kk(i), vv(i))
+		}
+		_ = db.Sync()
+		var mu sync.Mutex
+		bad := ""
+		var wg sync.WaitGroup
+		for g := 0; g < 8; g++ {
+			wg.Add(1)
+			go func(g int) {
+				defer wg.Done()
+				for round := 0; round < scale(tier, 6, 40); round++ {
+					for j := 0; j < nk; j++ {
+						i := (j*7 + g*61 + round) % nk
+						v, err := db.Get(kk(i))
+						ok, err2 := db.Has(kk(i))
+						if err != nil || err2 != nil || !ok || string(v) != string(vv(i)) {
+							mu.Lock()
+							if bad == "" {
+								bad = fmt.Sprintf("Get(%s) = %q, %v; Has = %v, %v; stored value %q", kk(i), clip(string(v)), err, ok, err2, vv(i))
+							}
+							mu.Unlock()
+							return
+						}
+					}
+				}
+			}(g)
+		}
+		wg.Wait()
+		_ = db.Close()
+		if bad != "" {
+			res.Findings = append(res.Findings, &Finding{Kind: "spec", Case: "C17/concurrent-readers", Cmd: "8 goroutines Get/Has 512 stored keys on fs." + fsc.name,
+				Impl: []string{bad}, Expected: []string{"the stored value, as on the other file systems"},
+				Program: []string{"open", "512 x put ck-NNNN cv-NNNN-...", "sync", "8 goroutines: Get + Has of every key, several rounds"}})
+		}
+		res.Tags["concurrent_reader_runs"]++
+	}
 }
